@@ -1,6 +1,7 @@
 package c17
 
 import (
+	"bytes"
 	"errors"
 	"fmt"
 	"io"
@@ -262,3 +263,9 @@ func (s *sendTap) RoundTrip(req *http.Request) (*http.Response, error) {
 type oneShot struct{ r io.Reader }
 
 func (o *oneShot) Read(p []byte) (int, error) { return o.r.Read(p) }
+
+// fileLike has the method set of an open file as far as reading goes: Read and Seek, nothing else.
+type fileLike struct{ r *bytes.Reader }
+
+func (f *fileLike) Read(p []byte) (int, error)              { return f.r.Read(p) }
+func (f *fileLike) Seek(o int64, whence int) (int64, error) { return f.r.Seek(o, whence) }
